@@ -51,12 +51,19 @@ type mspec struct {
 	inflight int
 	answerB  string // obj | error : what B answers to the repeated request
 	sched    string // free | ackclose | readclose : the receive loop's ack of A's rpc_error (ackclose) / its next read (readclose) is held until the caller has closed the old connection
+	// kind "multi" (see migrate_multi.go): several callers are answered with PHONE_MIGRATE_X in one container
+	kind   string // "" | multi
+	xs     string // data centre id per migrating caller, '+' separated: "2+2", "2+3", "2+2+2"
+	normal int    // 1: one more caller, answered normally by the old data centre between the errors
 }
 
 func (s mspec) String() string {
 	sc := s.sched
 	if sc == "" {
 		sc = "free"
+	}
+	if s.kind == "multi" {
+		return fmt.Sprintf("kind=multi,xs=%s,normal=%d,seq=%s,sched=%s", s.xs, s.normal, s.seq, sc)
 	}
 	return fmt.Sprintf("setup=%s,code=%d,text=%s,seq=%s,inflight=%d,b=%s,sched=%s", s.setup, s.code, vc.HexS(s.text), s.seq, s.inflight, s.answerB, sc)
 }
@@ -81,6 +88,12 @@ func parseSpec(x string) mspec {
 			s.answerB = v
 		case "sched":
 			s.sched = v
+		case "kind":
+			s.kind = v
+		case "xs":
+			s.xs = v
+		case "normal":
+			s.normal, _ = strconv.Atoi(v)
 		}
 	}
 	return s
@@ -89,18 +102,18 @@ func parseSpec(x string) mspec {
 func migrateScenarios(thorough bool) []mspec {
 	var l []mspec
 	add := func(setup string, code int, text, seq string, inflight int, b string) {
-		l = append(l, mspec{setup, code, text, seq, inflight, b, "free"})
+		l = append(l, mspec{setup: setup, code: code, text: text, seq: seq, inflight: inflight, answerB: b, sched: "free"})
 	}
 	// the order a free run reaches only now and then: A's rpc_error needs an acknowledgement (odd seq_no, as real
 	// servers send it); the receive loop writes that ack after the caller has closed the connection to A
-	l = append(l, mspec{"direct", 303, "PHONE_MIGRATE_2", "odd", 0, "obj", "ackclose"})
-	l = append(l, mspec{"direct", 303, "PHONE_MIGRATE_2", "odd", 1, "obj", "ackclose"})
+	l = append(l, mspec{setup: "direct", code: 303, text: "PHONE_MIGRATE_2", seq: "odd", inflight: 0, answerB: "obj", sched: "ackclose"})
+	l = append(l, mspec{setup: "direct", code: 303, text: "PHONE_MIGRATE_2", seq: "odd", inflight: 1, answerB: "obj", sched: "ackclose"})
 	// and: the receive loop goes back to reading after the caller has stopped the routines
-	l = append(l, mspec{"direct", 303, "PHONE_MIGRATE_2", "even", 0, "obj", "readclose"})
-	l = append(l, mspec{"newclient", 303, "PHONE_MIGRATE_12", "even", 1, "obj", "readclose"})
+	l = append(l, mspec{setup: "direct", code: 303, text: "PHONE_MIGRATE_2", seq: "even", inflight: 0, answerB: "obj", sched: "readclose"})
+	l = append(l, mspec{setup: "newclient", code: 303, text: "PHONE_MIGRATE_12", seq: "even", inflight: 1, answerB: "obj", sched: "readclose"})
 	// and: the old receive loop goes back to reading only after the caller has switched to B and repeated the request
-	l = append(l, mspec{"direct", 303, "PHONE_MIGRATE_2", "even", 0, "obj", "readnew"})
-	l = append(l, mspec{"direct", 303, "PHONE_MIGRATE_2", "even", 2, "obj", "readnew"})
+	l = append(l, mspec{setup: "direct", code: 303, text: "PHONE_MIGRATE_2", seq: "even", inflight: 0, answerB: "obj", sched: "readnew"})
+	l = append(l, mspec{setup: "direct", code: 303, text: "PHONE_MIGRATE_2", seq: "even", inflight: 2, answerB: "obj", sched: "readnew"})
 	// configured data centre: DC 2 (and 12) live at B
 	add("direct", 303, "PHONE_MIGRATE_2", "even", 0, "obj")
 	add("direct", 303, "PHONE_MIGRATE_2", "odd", 0, "obj")
@@ -129,12 +142,46 @@ func migrateScenarios(thorough bool) []mspec {
 	add("direct", 303, "USER_MIGRATE_2", "even", 0, "obj")
 	add("direct", 303, "NETWORK_MIGRATE_2", "odd", 0, "obj")
 	add("direct", 400, "PHONE_NUMBER_INVALID", "even", 0, "obj")
+	// several callers answered with PHONE_MIGRATE_X at once (migrate_multi.go); the free runs race, so they are repeated
+	multi := func(xs string, normal int, seq, sched string, reps int) {
+		for i := 0; i < reps; i++ {
+			l = append(l, mspec{kind: "multi", xs: xs, normal: normal, seq: seq, sched: sched})
+		}
+	}
+	freeReps := 3
+	if thorough {
+		freeReps = 12
+	}
+	multi("2+2", 0, "even", "free", freeReps)
+	multi("2+2", 1, "odd", "free", freeReps)
+	multi("2+2+2", 1, "even", "free", freeReps)
+	multi("2+12", 0, "even", "free", 1)
+	multi("2+2", 0, "even", "serial", 1)
+	multi("2+2+2", 1, "odd", "serial", 1)
+	multi("2+12", 1, "even", "serial", 1)
+	multi("2+2", 0, "even", "overlap", 1)
+	multi("2+2", 1, "even", "serialans", 1)
+	multi("2+3", 0, "even", "serialans", 1)
+	multi("2+3", 0, "even", "serial", 1)
+	multi("2+3", 1, "even", "free", freeReps)
+	multi("2+3+2", 1, "even", "free", 1)
+	if thorough {
+		for _, xs := range []string{"2+2", "2+12", "2+2+2", "2+3", "3+2", "2+3+2", "3+3+2"} {
+			for _, sc := range []string{"serial", "serialans", "overlap"} {
+				for normal := 0; normal <= 1; normal++ {
+					for _, seq := range []string{"even", "odd"} {
+						multi(xs, normal, seq, sc, 1)
+					}
+				}
+			}
+		}
+	}
 	if thorough {
 		for _, sc := range []string{"ackclose", "readclose", "readnew"} {
 			for _, setup := range []string{"direct", "newclient"} {
 				for inflight := 0; inflight <= 2; inflight++ {
 					for _, t := range []string{"PHONE_MIGRATE_2", "PHONE_MIGRATE_12"} {
-						l = append(l, mspec{setup, 303, t, map[bool]string{true: "odd", false: "even"}[sc == "ackclose"], inflight, "obj", sc})
+						l = append(l, mspec{setup: setup, code: 303, text: t, seq: map[bool]string{true: "odd", false: "even"}[sc == "ackclose"], inflight: inflight, answerB: "obj", sched: sc})
 					}
 				}
 			}
@@ -164,8 +211,17 @@ func migrateMain(args []string) {
 		migrateOne(args[1], parseSpec(args[2]))
 		return
 	}
+	if len(args) >= 4 && args[0] == "rerun" {
+		// confirmation run of one scenario alone (the caller sets VERIF_TIMESCALE / VERIF_WATCHDOG_MS)
+		out := newLineOut(args[1], false)
+		for _, l := range runChild("migrate", args[2], args[3]) {
+			out.f.WriteString(l + "\n")
+		}
+		out.Line("END")
+		return
+	}
 	if len(args) < 2 {
-		die("usage: migrate <tier> <out>")
+		die("usage: migrate <tier> <out> | migrate rerun <out> <id> <spec> | migrate one <id> <spec>")
 	}
 	out := newLineOut(args[1], false)
 	reps := 1
@@ -314,6 +370,7 @@ type gate struct {
 	armed         bool
 	rxHeld        bool
 	callerHeld    bool
+	otherReads    int // "read" points reached by receive loops other than the first one (new connections)
 	rxParked      chan struct{}
 	rxRelease     chan struct{}
 	callerParked  chan struct{}
@@ -339,6 +396,9 @@ func (g *gate) hook(point string, id int64) {
 	if point == "read" && g.rx == 0 {
 		g.rx = me
 	}
+	if point == "read" && me != g.rx {
+		g.otherReads++
+	}
 	holdRx := g.armed && point == g.rxPoint && me == g.rx && !g.rxHeld
 	holdCaller := g.armed && !g.freeCaller && point == "reconnecting" && me != g.rx && !g.callerHeld
 	if holdRx {
@@ -360,6 +420,25 @@ func (g *gate) hook(point string, id int64) {
 
 const tokenB = "answered-by-B"
 const tokenA = "answered-by-A"
+
+func pingFrame(fs []refserver.Frame, pingID int64) (refserver.Frame, bool) {
+	for _, f := range fs {
+		if p, ok := f.Obj.(*objects.PingParams); ok && p.PingID == pingID {
+			return f, true
+		}
+	}
+	return refserver.Frame{}, false
+}
+
+func withCrc(fs []refserver.Frame, crc uint32) []refserver.Frame {
+	var r []refserver.Frame
+	for _, f := range fs {
+		if f.Crc == crc {
+			r = append(r, f)
+		}
+	}
+	return r
+}
 
 func nonAck(fs []refserver.Frame) []refserver.Frame {
 	var r []refserver.Frame
@@ -384,6 +463,10 @@ func waitNonAck(s *refserver.Server, n int, d time.Duration) []refserver.Frame {
 }
 
 func migrateOne(id string, sp mspec) {
+	if sp.kind == "multi" {
+		migrateMultiOne(id, sp)
+		return
+	}
 	o := &mobs{id: id}
 	dir := scratch()
 	seed := vc.Seed()*7919 + uint64(len(sp.String()))
@@ -574,7 +657,17 @@ func migrateOne(id string, sp mspec) {
 			if len(waitNonAck(B, 1, watchdog)) < 1 {
 				o.put("sched", "request-never-repeated")
 			} else {
-				time.Sleep(20 * time.Millisecond) // B's connection has its own receive loop, waiting in its read
+				// B's connection has its own receive loop: wait until it is at its read
+				dl := time.Now().Add(watchdog)
+				for time.Now().Before(dl) {
+					gt.mu.Lock()
+					n := gt.otherReads
+					gt.mu.Unlock()
+					if n > 0 {
+						break
+					}
+					time.Sleep(time.Millisecond)
+				}
 				o.put("sched", sp.sched)
 			}
 			ok = false
@@ -582,8 +675,10 @@ func migrateOne(id string, sp mspec) {
 		if ok {
 			select {
 			case <-gt.callerParked:
-			case <-time.After(watchdog / 2):
-				// the tree has no yield point between Disconnect and CreateConnection (hook commit missing)
+			case <-time.After(minDur(watchdog/2, 1500*time.Millisecond*time.Duration(tscale))):
+				// the caller never gets there while the receive loop is held: the tree has no yield point between
+				// Disconnect and CreateConnection (hook commit missing), or it does not let a caller migrate while
+				// the receive loop is writing (the order asked for cannot occur in this tree)
 				o.put("sched", "unavailable")
 				ok = false
 			}
@@ -598,11 +693,11 @@ func migrateOne(id string, sp mspec) {
 				}
 				time.Sleep(time.Millisecond)
 			}
-			time.Sleep(20 * time.Millisecond)
+			pause(20 * time.Millisecond)
 			o.put("sched", sp.sched)
 		}
 		close(gt.rxRelease)
-		time.Sleep(60 * time.Millisecond) // the receive loop writes its ack on the closed connection now
+		pause(60 * time.Millisecond) // the receive loop writes its ack on the closed connection now
 		close(gt.callerRelease)
 	}
 
@@ -627,7 +722,8 @@ loop:
 		default:
 		}
 		if !answered {
-			if bf := nonAck(B.Frames()); len(bf) > 0 {
+			// the repeated request (other calls that were waiting for A may be repeated at B as well)
+			if bf := withCrc(nonAck(B.Frames()), req.Crc); len(bf) > 0 {
 				answered = true
 				answerB(bf[0])
 			}
@@ -675,7 +771,7 @@ loop:
 	}
 	o.put("B-plain-frames", plainB)
 	o.put("B-unopenable-frames", badB)
-	bn := nonAck(bfs)
+	bn := withCrc(nonAck(bfs), req.Crc)
 	o.put("B-requests", len(bn))
 	if len(bn) > 0 {
 		o.put("B-first-request-equals-A-request", bytes.Equal(bn[0].Body, req.Body))
@@ -683,7 +779,7 @@ loop:
 		o.put("B-first-request-same-session-id", bn[0].SessionID == req.SessionID)
 		o.put("B-first-request-msgid-later", bn[0].MsgID > req.MsgID)
 	}
-	o.put("A-requests", len(nonAck(A.Frames()))-baseA-sp.inflight)
+	o.put("A-requests", len(withCrc(nonAck(A.Frames())[baseA:], req.Crc)))
 	o.put("A-new-conns", A.Conns()-connsA0)
 	o.put("B-new-conns", B.Conns()-connsB0)
 	o.put("addr-after", vc.HexS(m.VerifClientAddr()))
@@ -701,7 +797,7 @@ loop:
 		return n
 	}
 	if sp.inflight > 0 {
-		grace := 300 * time.Millisecond
+		grace := 300 * time.Millisecond * time.Duration(tscale)
 		time.Sleep(grace)
 		o.put("inflight-finished-unaided", finished())
 		// whoever the client is connected to now answers the old ids (a real data centre would not
@@ -710,9 +806,22 @@ loop:
 		if B.Conns() > connsB0 {
 			cur = B
 		}
+		resent := 0
 		for i, f := range fl {
 			_ = cur.Send(refserver.Msg{MsgID: cur.NextMsgID(true), SeqNo: 2, Body: refserver.RpcResult(f.msgID, refserver.Pong(f.msgID, int64(9000+i)))})
+			// a client that repeats its waiting calls at the new data centre: those have new ids
+			again := false
+			for _, g := range nonAck(cur.Frames()) {
+				if p, ok := g.Obj.(*objects.PingParams); ok && p.PingID == int64(9000+i) && g.MsgID != f.msgID {
+					again = true
+					_ = cur.Send(refserver.Msg{MsgID: cur.NextMsgID(true), SeqNo: 2, Body: refserver.RpcResult(g.MsgID, refserver.Pong(g.MsgID, int64(9000+i)))})
+				}
+			}
+			if again {
+				resent++
+			}
 		}
+		o.put("inflight-repeated-at-current-dc", resent)
 		dl := time.Now().Add(watchdog)
 		for finished() < len(fl) && time.Now().Before(dl) {
 			time.Sleep(2 * time.Millisecond)
@@ -750,15 +859,13 @@ loop:
 		where := "nowhere"
 		dl := time.Now().Add(watchdog)
 		for time.Now().Before(dl) {
-			if fa := nonAck(A.Frames()); len(fa) > a0 {
+			if f, ok := pingFrame(nonAck(A.Frames())[a0:], 4242); ok {
 				where = "A"
-				f := fa[a0]
 				_ = A.Send(refserver.Msg{MsgID: A.NextMsgID(true), SeqNo: 2, Body: refserver.RpcResult(f.MsgID, refserver.Pong(f.MsgID, 4242))})
 				break
 			}
-			if fb := nonAck(B.Frames()); len(fb) > b0 {
+			if f, ok := pingFrame(nonAck(B.Frames())[b0:], 4242); ok {
 				where = "B"
-				f := fb[b0]
 				_ = B.Send(refserver.Msg{MsgID: B.NextMsgID(true), SeqNo: 2, Body: refserver.RpcResult(f.MsgID, refserver.Pong(f.MsgID, 4242))})
 				break
 			}
@@ -773,7 +880,7 @@ loop:
 		}
 	}
 	// leave the receive loop a moment to trip over anything the switch left behind
-	time.Sleep(50 * time.Millisecond)
+	pause(50 * time.Millisecond)
 	finish()
 }
 
